@@ -337,11 +337,56 @@ def _shift(v, loff):
     return v
 
 
+_TY_KEYS = ("ty", "src_ty", "indirect")
+
+
+def rx_sub_all(x, sub):
+    if not isinstance(x, str):
+        return x
+    for rx, ty in sub:
+        x = rx.sub(lambda m_: ty, x)
+    return x
+
+
+def _subst_types(v, sub):
+    """Deep copy of a fact value with the type-parameter names of a spliced generic helper replaced, in type-bearing
+    fields only, by the type arguments of the call it was spliced at (`parse_field::<i32>` -> T := i32)."""
+    def st(x):
+        for rx, ty in sub:
+            x = rx.sub(lambda m_: ty, x)
+        return x
+    if isinstance(v, dict):
+        out = {}
+        for k, x in v.items():
+            if k in _TY_KEYS and isinstance(x, str):
+                out[k] = st(x)
+            elif k == "arg_tys" and isinstance(x, list):
+                out[k] = [st(y) if isinstance(y, str) else y for y in x]
+            else:
+                out[k] = _subst_types(x, sub)
+        return out
+    if isinstance(v, list):
+        return [_subst_types(x, sub) for x in v]
+    return v
+
+
 def _inline_one(B, bb, H):
     """Splice H's blocks into B at the call terminating block bb."""
     t = B["blocks"][bb]["term"]
     loff = len(B["locals"])
     boff = len(B["blocks"])
+    # type arguments of this call for the helper's type parameters (both lists hold types only, in declaration order)
+    tps = H.get("tparams") or []
+    gts = [g.get("ty") for g in (t.get("gargs") or [])]
+    sub = []
+    if tps and len(tps) == len(gts):
+        for nm, ty in zip(tps, gts):
+            if isinstance(ty, str) and nm != ty and re.fullmatch(r"[A-Za-z_][A-Za-z0-9_]*", nm):
+                sub.append((re.compile(r"(?<![A-Za-z0-9_:])%s(?![A-Za-z0-9_])" % re.escape(nm)), ty))
+    if sub:
+        H = dict(H)
+        H["locals"] = [rx_sub_all(x, sub) for x in H["locals"]]
+        H["blocks"] = _subst_types(H["blocks"], sub)
     B["locals"] = B["locals"] + list(H["locals"])
     for nm, pl in H.get("vars", []):
         B["vars"].append([nm, _shift(pl, loff)])
